@@ -39,6 +39,7 @@ fn multi_file_layout(n: usize, rng: &mut Rng) -> Layout {
     Layout {
         files,
         xor_key: if rng.chance(1, 4) { Some(Bytes(rng.bytes(8))) } else { None },
+        magic_mode: 0,
         extra_files: vec![],
     }
 }
@@ -176,7 +177,7 @@ impl Prop for C10 {
         "fault_enumeration"
     }
     fn rule(&self) -> String {
-        "per sampled world (3..12 blocks over 2..3 blk files, optional XOR) x the three file-producing callbacks x writer capacity in {1,7,64,4096,4000000}: (1) every height x {file removed, emptied, truncated at 6 positions of the block, index offset past EOF} and EIO on every blk read event; (2) every per-file size limit L from 0 to the largest output size (small outputs) or at every write boundary +-1 (large), and ENOSPC after {0,half,n-1} bytes / EIO at every write event (up to 120 events per run, sampled beyond); (3) process abort before every I/O event and inside every write; (4) failure of every rename; (5) the benign baseline; (6) on every run, the on-disk size of the source at each rename. Each fault is one simulated run with exactly one failing fault. Non-trivial = the planned fault actually fired (or baseline); distinct by scenario hash.".into()
+        "per sampled world (3..12 blocks over 2..3 blk files, optional XOR) x the three file-producing callbacks x writer capacity in {1,7,64,4096,4000000}: (1) every height x {file removed, emptied, truncated at 6 positions of the block, index offset past EOF} and EIO on every blk read event; (2) every per-file size limit L from 0 to the largest output size (small outputs) or at every write boundary +-1 (large), and ENOSPC after {0,half,n-1} bytes / EIO at every write event (up to 120 events per run, sampled beyond); (3) process abort before every I/O event and inside every write; (4) failure of every rename; (5) the benign baseline, and the empty range (--start above the tip: exit 0 must still mean one complete row-less final file per output and no *.tmp); (5b) an unreadable block crossed with a size limit in one run (height required whenever the trace shows the block was reached before any write failed); (1b) the input-fault kinds on a single-file copy of the world; (6) on every run, the on-disk size of the source at each rename. Each fault is one simulated run with exactly one failing fault. Non-trivial = the planned fault actually fired (or baseline); distinct by scenario hash.".into()
     }
     fn exhaustive_note(&self) -> Option<String> {
         Some("per sampled world: all heights x input-fault kinds, all blk read events, all I/O event indices as crash points, all rename events, all size limits (small outputs) are enumerated; worlds themselves are sampled".into())
@@ -190,7 +191,7 @@ impl Prop for C10 {
         }
     }
     fn required_probes(&self, _tier: Tier) -> Vec<&'static str> {
-        vec!["enospc_on_final_flush", "enospc_midrun", "crash_between_renames", "crash_inside_write", "limit_zero", "stale_same_name_final_present"]
+        vec!["enospc_on_final_flush", "enospc_midrun", "crash_between_renames", "crash_inside_write", "limit_zero", "stale_same_name_final_present", "start_above_tip", "input_fault_on_full_device", "input_fault_met_before_any_write_failure", "input_fault_in_single_file_directory"]
     }
     fn explore(&self, item: u64, _rng: &mut Rng, _tier: Tier, h: &mut Harness) -> Result<(), String> {
         // every slice regenerates the same world and baseline, then runs its share of the enumeration
@@ -288,6 +289,34 @@ impl Prop for C10 {
                 }
             }
         }
+        // (1b) the same input faults when the directory holds a single blk file (a removed file then leaves none)
+        {
+            let nb = world.chain.len();
+            let faults = vec![
+                DiskFault::EmptyFile { height: s },
+                DiskFault::RemoveFile { height: s },
+                DiskFault::Truncate { height: e, off: 0 },
+                DiskFault::Truncate { height: s, off: 4 },
+                DiskFault::PosPastEof { height: e },
+            ];
+            for f in faults {
+                if mine() {
+                    let mut c = mk("input-fault", &|r| r.disk_faults = vec![f.clone()]);
+                    c.layouts = vec![single_file_layout(nb)];
+                    h.check(&mut c)?;
+                }
+            }
+        }
+        // (1c) a range that starts above the tip: nothing to process is not a failure, and the exit status
+        // still has to tell the truth about the files
+        for (k, with_end) in [(1u64, false), (2, true), (1000, false)] {
+            if mine() {
+                h.check(&mut mk("empty-range", &|r| {
+                    r.start = Some(t + k);
+                    r.end = if with_end { Some(t + k + 3) } else { None };
+                }))?;
+            }
+        }
         for ev in base.trace.iter().filter(|x| x.op == "read" && x.class == "blk") {
             if !mine() {
                 continue;
@@ -349,6 +378,26 @@ impl Prop for C10 {
                     r.plan.writer_cap = Some(capx);
                     r.plan.limits = vec![("*".into(), *l)];
                 }))?;
+            }
+        }
+        // (2b) an unreadable block on a device that is also full: both faults in one run
+        {
+            let mut hs = vec![s, (s + e) / 2, e];
+            hs.dedup();
+            for hh in hs {
+                for f in [DiskFault::RemoveFile { height: hh }, DiskFault::Truncate { height: hh, off: 44 }] {
+                    for l in [0u64, maxsize / 2] {
+                        for capx in [4_000_000usize, 7] {
+                            if mine() {
+                                h.check(&mut mk("input-fault+limit", &|r| {
+                                    r.disk_faults = vec![f.clone()];
+                                    r.plan.writer_cap = Some(capx);
+                                    r.plan.limits = vec![("*".into(), l)];
+                                }))?;
+                            }
+                        }
+                    }
+                }
             }
         }
         let hash_ordered = cb != "csvdump";
@@ -549,7 +598,8 @@ impl Prop for C10 {
         match scn.family.as_str() {
             "benign" => o.exit.ok(),
             "crash" => o.trace.iter().any(|e| e.op == "crash"),
-            "input-fault" => !o.exit.ok(),
+            "input-fault" | "input-fault+limit" => !o.exit.ok(),
+            "empty-range" => true,
             _ => o.trace.iter().any(|e| matches!(e.result(), Some((false, n)) if n != 4)),
         }
     }
@@ -667,8 +717,16 @@ impl Prop for C10 {
                         if o.exit.ok() {
                             v.push(viol(format!("C10/{}/exit0-after-input-fault", cb), format!("block {} cannot be read ({:?}{:?}) but the run exited 0", hh, r.disk_faults, r.plan.fails)));
                         } else {
+                            let none_left = scn.layouts[r.layout].files.len() == 1 && matches!(r.disk_faults.first(), Some(DiskFault::RemoveFile { .. }));
+                            if scn.layouts[r.layout].files.len() == 1 {
+                                st.probe("input_fault_in_single_file_directory");
+                            }
                             match error_height(&o.stderr_str()) {
                                 Some(n) if n == hh => {}
+                                x if none_left => v.push(viol(
+                                    format!("C10/{}/no-height-when-no-blk-file-left", cb),
+                                    format!("the only blk file was removed: height {} cannot be read; stderr reports {:?}: {}", hh, x, super::c01::tail(&o.stderr_str())),
+                                )),
                                 x => v.push(viol(
                                     format!("C10/{}/failing-height-not-reported", cb),
                                     format!("fault makes height {} unreadable ({:?}{:?}); stderr reports {:?}: {}", hh, r.disk_faults, r.plan.fails, x, super::c01::tail(&o.stderr_str())),
@@ -677,6 +735,55 @@ impl Prop for C10 {
                         }
                         if let Some(n) = final_changed.first() {
                             v.push(viol(format!("C10/{}/final-file-after-failure", cb), format!("input fault at height {}: final-named file {} was written", hh, n)));
+                        }
+                    }
+                }
+            }
+            "empty-range" => {
+                st.probe("start_above_tip");
+                if o.exit.ok() {
+                    for sname in stems.iter() {
+                        if o.dump.contains_key(&format!("{}.csv.tmp", sname)) {
+                            v.push(viol(format!("C10/{}/tmp-left-after-success", cb), format!("start {:?} above tip {}: {}.csv.tmp remains after exit 0", r.start, m.tip(), sname)));
+                        }
+                        let mine_final: Vec<&&String> = final_changed.iter().filter(|n| parse_final(n).map(|x| x.0 == *sname).unwrap_or(false)).collect();
+                        if mine_final.len() != 1 {
+                            v.push(viol(format!("C10/{}/incomplete-output-on-exit0", cb), format!("start {:?} above tip {}: exit 0 but {} final-named {} files were written", r.start, m.tip(), mine_final.len(), sname)));
+                            continue;
+                        }
+                        // complete = what an undisturbed run over no block at all holds: no data row
+                        let body = String::from_utf8_lossy(&o.dump[*mine_final[0]]).into_owned();
+                        let rows = body.lines().filter(|l| !l.is_empty() && *l != "txid;indexOut;height;value;address" && *l != "address;balance").count();
+                        if rows != 0 {
+                            v.push(viol(format!("C10/{}/incomplete-output-on-exit0", cb), format!("start {:?} above tip {}: {} holds {} data rows", r.start, m.tip(), mine_final[0], rows)));
+                        }
+                    }
+                } else if let Some(n) = final_changed.first() {
+                    v.push(viol(format!("C10/{}/final-file-after-failure", cb), format!("start {:?} above tip {}: exit {:?} yet final-named file {} was written", r.start, m.tip(), o.exit, n)));
+                }
+            }
+            "input-fault+limit" => {
+                st.probe("input_fault_on_full_device");
+                if o.exit.ok() {
+                    v.push(viol(format!("C10/{}/exit0-after-input-fault", cb), format!("unreadable block ({:?}) and size limit {:?}, but the run exited 0", r.disk_faults, r.plan.limits)));
+                }
+                if let Some(n) = final_changed.first() {
+                    v.push(viol(format!("C10/{}/final-file-after-failure", cb), format!("unreadable block and size limit: final-named file {} was written", n)));
+                }
+                if let Some(hh) = failing_height(scn, m, r, &o.info) {
+                    // which fault did the run meet first?
+                    let mark = o.trace.iter().position(|e| e.op == "height" && e.class.parse::<u64>().ok() == Some(hh));
+                    let wfail = o.trace.iter().position(|e| e.op == "write" && matches!(e.result(), Some((false, n)) if n != 4));
+                    if let Some(mk_i) = mark {
+                        if wfail.map(|w| w > mk_i).unwrap_or(true) && !o.exit.ok() {
+                            st.probe("input_fault_met_before_any_write_failure");
+                            match error_height(&o.stderr_str()) {
+                                Some(n) if n == hh => {}
+                                x => v.push(viol(
+                                    format!("C10/{}/failing-height-not-reported", cb),
+                                    format!("height {} unreadable ({:?}) before any write had failed (limit {:?}); stderr reports {:?}: {}", hh, r.disk_faults, r.plan.limits, x, super::c01::tail(&o.stderr_str())),
+                                )),
+                            }
                         }
                     }
                 }
